@@ -784,9 +784,9 @@ def run(ctx) -> Report:
     rep = Report(rule=RULE)
     f = facts()
     chunks = [4, 2] if ctx.tier == 'quick' else [4, 1, 2, 7]
-    cases = corpus() + enumerate_cases(f, chunks, ctx.tier != 'quick')
+    cases = corpus() + sequence_cases(f) + enumerate_cases(f, chunks, ctx.tier != 'quick')
     cases += random_cases(ctx.rng, f, ctx.scale(600, 8000), [1, 2, 3, 4, 7] if ctx.tier != 'quick' else [2, 4, 5])
-    cases += nested_cases(f) + persistent_cases(f) + sequence_cases(f)
+    cases += nested_cases(f) + persistent_cases(f)
     check_cases(cases, rep, ctx.scratch, f)
     list_fault_probe(rep, ctx.scratch, f)
     rep.notes.append(f'budgets read from the source: local max_tries={f["local_max_tries"]}, s3 max_tries={f["s3_max_tries"]}, '
